@@ -53,7 +53,7 @@ static void gen_call(GenSt& g, int th, int parent, int at, int depth, int force_
     case A_PIPE: { int nf = s.range(2, 3); form = ""; for (int i = 0; i < nf; i++) form += "pio"[s.choose(3)]; n = s.range(0, 10); grain = s.range(1, 4); cx = (int)s.choose(3); break; }
     case A_TG: n = s.range(1, 8); form = std::to_string(s.choose(3)); x = s.range(0, std::min(3, n)); n += x; break;
     case A_ARENA: n = 1; form = std::to_string(s.choose(2)); break;
-    case A_FG: n = s.range(1, 8); form = std::to_string(s.choose(3)); break;
+    case A_FG: n = s.range(1, 8); form = std::to_string(s.choose(3)); cx = (int)s.choose(3); x = (int)s.choose(2); break;    // cx: graph over a user context; x=1: no graph::reset() before the graph is destroyed
     }
     int nelem = a == A_PIPE ? n * (int)form.size() : (a == A_FG && form == "2") ? 2 * n : n;
     static const int ws[] = { 0, 1, 2, 4, 8, 16, 30 }; int work = ws[s.weighted({ 1, 2, 2, 3, 3, 2, 1 })];     // long bodies: a throw then finds other bodies of the group inside
@@ -407,11 +407,13 @@ static void run_alg(Call& c) {
             else { int v = g_arena->execute([&c, rd]() -> int { run_elem(c, rd, 0); return 41 + c.id; }); if (v != 41 + c.id) vs_violation("RESULT", "call %d: task_arena::execute returned %d, expected %d", c.id, v, 41 + c.id); } });
         break;
     case A_FG: {
-        int rd = 0; tbb::flow::graph g;
+        int rd = 0; tbb::flow::graph g_own; tbb::flow::graph g_user(ctx); tbb::flow::graph& g = c.cx ? g_user : g_own;
         tbb::flow::function_node<int, int> n1(g, fi == 1 ? tbb::flow::serial : tbb::flow::unlimited, Fn(c, &rd, 0));
         tbb::flow::function_node<int, int> n2(g, tbb::flow::serial, Fn(c, &rd, 1));
         if (fi == 2) tbb::flow::make_edge(n1, n2);
-        for (rd = 0; rd < rounds; rd++) { attempt(c, rd, [&] { for (int m = 0; m < c.n; m++) n1.try_put(m); g.wait_for_all(); }); if (c.r[rd].threw) g.reset(); }
+        for (rd = 0; rd < rounds; rd++) { attempt(c, rd, [&] { for (int m = 0; m < c.n; m++) n1.try_put(m); g.wait_for_all(); });
+            // after an exception the graph must be reset() before it is used again; it may be destroyed without (x=1): ~graph waits once more and must not find the old exception
+            if (c.r[rd].threw && !(c.x == 1 && rd == rounds - 1)) g.reset(); }
         break; }
     }
 }
